@@ -32,7 +32,7 @@ CHECKS = {
              '(symbolic) and every interface value; (G) out-of-range or NaN latitudes panic. Counter-examples are confirmed natively against a reference projection + point-in-diamond oracle.',
         design_ref='DESIGN.md sections 3.2, 3.3, 5 C01',
         note='Assumes the libm contracts (validated on the platform libm each run) and the assume-guarantee cut at Layer::d0h_lh_in_d0c (R proved on the producer, assumed by the consumer). '
-             'P in the polar caps is decided for cosines with <= 10 significant bits (a second symbolic 53x53 multiplier is out of reach for SAT). |lon| <= 25.2.',
+             'P in the polar caps: base cell, h, sign and range of l for every position; the exact value of l (a second symbolic 53x53 multiplier) only in the thorough tier for cosines with <= 6 significant bits. |lon| <= 25.2.',
     ),
     'C02': dict(
         text='hash at depth d equals hash at depth d+1 shifted by 2 bits for every finite in-cell coordinate pair satisfying lemma R (all doubles, incl. values on and 1 ulp around every cell border) '
